@@ -35,7 +35,8 @@ FloatKinds == {"float32", "float64"}
 NumKinds == IntKinds \cup UintKinds \cup FloatKinds
 ParamKinds == NumKinds \cup {"string", "bool", "iface", "list", "map"}
 \* nint / nfloat: results of defined numeric types (time.Duration, a float type of the application)
-NamedNumKinds == {"nint", "nfloat"}
+\* nhuge: an unsigned result beyond the signed 64 bit range (its faithful arrival is recorded as a token)
+NamedNumKinds == {"nint", "nfloat", "nhuge"}
 ResultKinds == NumKinds \cup NamedNumKinds \cup {"string", "bool", "iface", "list", "error"}
 
 \* twice the value of the small numbers
